@@ -1,39 +1,49 @@
 #!/bin/bash
 # Confirm a seeded change and run the checks against it, the way the brief prescribes:
-#   apply the patch to /repo, rebuild, run the repository's own tests, run the demonstration,
-#   run the named checks, and undo the patch straight afterwards.
+#   apply the patch to /repo, rebuild /repo/_build (incremental), run the repository's own tests,
+#   run the demonstration, run the named checks, undo the patch straight afterwards, rebuild and
+#   run the demonstration on the clean tree.
 #
-#   ./seed_verify.sh <seed-dir> <demo-cmd-file|-> <Cxx> [<Cyy> ...]
+#   ./seed_verify.sh <seed-id> <Cxx> [<Cyy> ...]        (SKIP_TESTS=1: no ctest; TIER=thorough)
 #
-# <seed-dir>/patch.diff is applied with `git -C /repo apply`.  If <demo-cmd-file> is given it is a
-# shell script run twice (with the patch: must fail; without: must pass) with REPO_BUILD=/repo/_build.
-# Results are appended to <seed-dir>/verify.log.
+# needs seeded/<seed-id>/{patch.diff,demo.sh}; demo.sh is run with WT=/repo B=/repo/_build and
+# must exit non-zero with the patch and 0 without.  Log: seeded/<seed-id>/confirm.log.
+# Serialised through a lock: nothing else may use /repo while a patch is applied.
 set -u
-SEED=$1; DEMO=$2; shift 2
-LOG=$SEED/verify.log
+ID=$1; shift
+SEED=/verif/seeded/$ID; LOG=$SEED/confirm.log
 cd /verif
+exec 9>/verif/build/.repo_apply.lock
+flock 9
 if [ -n "$(git -C /repo status --porcelain --untracked-files=no)" ]; then
   echo "/repo has uncommitted changes; refusing" ; exit 2
 fi
-run_demo() {  # $1 = label
-  if [ "$DEMO" != "-" ]; then
-    REPO_BUILD=/repo/_build CELER_DISABLE_PARALLEL=1 CELER_LOG=error bash "$DEMO" > $SEED/demo.$1.out 2>&1
-    echo "demo($1) exit=$?" | tee -a $LOG
-  fi
+build() {
+  ( cmake --build /repo/_build -j${SEED_JOBS:-16} -- -k 0 2>&1 | grep -E "^FAILED|error:" | grep -v GeantVolumeMapper | head -5 ) | tee -a $LOG
 }
-echo "==== $(date) verify $SEED" | tee -a $LOG
+demo() {  # $1 = label
+  WT=/repo B=/repo/_build bash $SEED/demo.sh > $SEED/demo.$1.out 2>&1
+  echo "demo ($1 tree): exit $?" | tee -a $LOG
+}
+echo "==== $(date -u) verify $ID at /repo $(git -C /repo rev-parse --short HEAD) verif $(git -C /verif rev-parse --short HEAD)" | tee -a $LOG
 git -C /repo apply $SEED/patch.diff || { echo "patch does not apply" | tee -a $LOG; exit 2; }
 trap 'git -C /repo checkout -- . ; echo "[undone]"' EXIT
-( cmake --build /repo/_build -j16 -- -k 0 2>&1 | grep -E "^FAILED|error:" | grep -v GeantVolumeMapper | head -5 ) | tee -a $LOG
-( ctest --test-dir /repo/_build -j8 --timeout 900 2>&1 | grep -E "tests passed|Failed|FAILED" | head -8 ) | tee -a $LOG
-run_demo patched
+build
+if [ -z "${SKIP_TESTS:-}" ]; then
+  ( ctest --test-dir /repo/_build -j8 --timeout 900 2>&1 | grep -E "tests passed|\(Failed\)|\(Timeout\)" | head -8 ) | tee -a $LOG
+  # a timeout on the loaded machine: run those tests again on their own
+  if grep -q "(Timeout)" $LOG; then
+    ( ctest --test-dir /repo/_build --rerun-failed -j2 --timeout 3000 2>&1 | grep -E "tests passed|\(Failed\)|\(Timeout\)" | sed 's/^/rerun-failed: /' | head -8 ) | tee -a $LOG
+  fi
+fi
+demo patched
 for c in "$@"; do
-  out=$(VERIF_OUTDIR=$SEED/run ./check $c quick 2>&1); rc=$?
-  echo "check $c quick (patched) rc=$rc" | tee -a $LOG
-  echo "$out" | grep -E "^\[check\] [a-z].*:|VIOLATION|KNOWN" | cut -c1-300 | head -8 | tee -a $LOG
+  out=$(VERIF_OUTDIR=$SEED/run ./check $c ${TIER:-quick} 2>&1); rc=$?
+  echo "check $c ${TIER:-quick} on patched tree: exit $rc" | tee -a $LOG
+  echo "$out" | grep -E "^\[check\] [a-z].*:|VIOLATION" | cut -c1-400 | head -6 | tee -a $LOG
 done
 git -C /repo checkout -- .
 trap - EXIT
-( cmake --build /repo/_build -j16 -- -k 0 2>&1 | grep -E "^FAILED|error:" | grep -v GeantVolumeMapper | head -5 ) | tee -a $LOG
-run_demo clean
-echo "==== done" | tee -a $LOG
+build
+demo clean
+echo "==== done $ID" | tee -a $LOG
